@@ -429,7 +429,7 @@ fn finding_items() -> Vec<String> {
 }
 
 pub fn check_db(ctx: &mut Ctx, db: &'static Database, db_name: &str, items: &[String]) {
-    let variants = ctx.scale(300, 6_000, 2);
+    let variants = ctx.scale(2_000, 12_000, 2);
     let tcp_a = huginn_net_tcp::HuginnNetTcp::new(Some(std::sync::Arc::new(clone_db(db))), 64).expect("tcp analyzer");
     let mut idx = 0u64;
     // ---------------- TCP tables
